@@ -21,5 +21,5 @@ Requirements for the change:
  * It must be the kind of mistake a maintainer could plausibly make or a refactor could introduce (a removed or weakened guard, an off-by-one, a swapped order, a wrong constant, a forgotten reset, an early return, two cooperating sites that each look fine alone) — not vandalism, not a change that ordinary use would expose at once. Prefer one that needs something specific to manifest: an unusual input, a boundary value, a multi-step sequence, a particular interleaving or fault.
  * Only non-test .go files of fasthttp may change; do not touch files named verif_*.go (leave them as they are); keep the patch small (a few lines).
  * It must compile (go build ./... and go vet are not required to be clean beyond compiling) and the EXISTING tests must still pass: run  python3 /verif/lib/baseline.py {wt}  — it must print "baseline: 1091/1091 stable tests passed" (7 unrelated network tests always fail; ignore them). If a test fails, pick a different change.
- * Demonstration: a new Go test file {wt}/zz_seed_demo_test.go (package fasthttp or the relevant sub-package; any test name) that FAILS with your change and PASSES on the unchanged code (verify both: `git -C {wt} stash` is fine inside your worktree, or keep the patch as a diff and apply/revert it). The demonstration should show the property being violated (wrong value returned, bytes leaked, limit exceeded, ...), through the public API where possible.
+ * Demonstration: a new Go test file {wt}/zz_seed_demo_test.go (package fasthttp or the relevant sub-package; any test name) that FAILS with your change and PASSES on the unchanged code (verify both. NEVER use `git stash` — the stash is shared between all worktrees of /repo and other people use it; instead save the change with `git -C {wt} diff -- . ':!zz_seed_demo_test.go' > /tmp/p_{pid}_{k}.diff`, revert with `git -C {wt} apply -R /tmp/p_{pid}_{k}.diff`, re-apply with `git -C {wt} apply /tmp/p_{pid}_{k}.diff`). The demonstration should show the property being violated (wrong value returned, bytes leaked, limit exceeded, ...), through the public API where possible.
 Deliver, in the directory {wt}/OUT/ : patch.diff (output of `git -C {wt} diff -- . ':!zz_seed_demo_test.go' ':!OUT'` with your change applied, demo excluded), demo_test.go (copy of the demonstration), and notes.md (what the change is, why it breaks the property, what it needs in order to manifest, the exact commands you ran and their results with and without the change). Leave the worktree in place with the change applied. Your final message: the one-paragraph summary from notes.md.""")
